@@ -24,6 +24,14 @@ type PropCfg struct {
 	Level     string   `json:"level"`
 	Notes     []string `json:"assumptions"`
 	Bounded   []string `json:"bounded"`
+	SMTLemmas []struct {
+		Name     string `json:"name"`
+		File     string `json:"file"`
+		What     string `json:"what"`
+		Quick    string `json:"bound_quick"`
+		Thorough string `json:"bound_thorough"`
+		Secs     int    `json:"secs"`
+	} `json:"smt_lemmas"`
 }
 
 type KnownFinding struct {
@@ -216,6 +224,29 @@ func main() {
 				x.checkLemmas(c, anyFn)
 			}
 		}
+	}
+	for _, l := range pc.SMTLemmas {
+		if *only != "" {
+			continue
+		}
+		b, err := os.ReadFile(filepath.Join(*verif, l.File))
+		if err != nil {
+			fatal("smt lemma %s: %v", l.Name, err)
+		}
+		bound := l.Quick
+		if *tier == "thorough" && l.Thorough != "" {
+			bound = l.Thorough
+		}
+		secs := l.Secs
+		if secs == 0 {
+			secs = 60
+		}
+		if *tier == "thorough" {
+			secs *= 10
+		}
+		o := &Obligation{Name: "smt-lemma/" + l.Name, Kind: "smt-lemma", Tag: l.Name, Fn: "smt-lemma", Desc: l.What + " (bound " + bound + ")", Raw: strings.ReplaceAll(string(b), "BOUND", bound), MaxSec: secs, goal: "raw"}
+		x.obls = append(x.obls, o)
+		x.oblSite[o] = &siteInfo{name: o.Name}
 	}
 	tGen := time.Since(t0).Seconds() - tLoad
 	x.finalizeNames()
